@@ -611,19 +611,27 @@ c.modifies("self._executor_manager_thread", f"glob:{PE}.process_pool_executor_at
 c.note("trusted summary of thread creation: the constructor of _ExecutorManagerThread and Thread.start are externals")
 c.trusted_summary = True
 
-c = M.contract(f"{PPE}._ensure_executor_running", props=["C08", "C07"])
+c = M.contract(f"{PPE}._ensure_executor_running", props=["C08", "C07", "C02"])
 c.param("self", T.Ref(PPE))
 c.rely("registered-pids-are-live-children", "forall(Int, lambda k: implies(k in self._processes, G.pid_live[k]))", "A-pids")
-c.requires("not-shut-down", "self._processes_management_lock is not None and self._call_queue is not None and self._result_queue is not None")
+c.requires("not-shut-down", "self._processes_management_lock is not None and self._call_queue is not None and self._result_queue is not None and "
+           "self._executor_manager_thread_wakeup is not None")
 c.ensures("ensure/tops-up-to-max-workers", "len(self._processes) >= self._max_workers", prop=["C08", "C07"])
 c.ensures("ensure/never-above-the-larger-of-old-and-max", "len(self._processes) <= max(old(len(self._processes)), self._max_workers)", prop="C08")
 c.ensures("ensure/manager-running", "self._executor_manager_thread is not None")
 c.at_call(f"{PE}:{PPE}._adjust_process_count", "under-management-lock", "held(self._processes_management_lock)", prop="C08")
 c.ensures("ensure/adjusts-under-the-management-lock",
           "log_arg('acquire', 0, 0) is self._processes_management_lock and log_pos('acquire', 0) == 0 and log_tags()[-1] == 'release'", prop="C08")
-c.raises("ensure/failed-spawn-releases-the-lock", "OSError",
+# the manager thread waits on the sentinels of the workers it knew when it last woke up: whoever registers workers from another thread must wake it,
+# otherwise the death of such a worker is never seen (C02: a death at any instant of a worker's life is detected)
+c.ensures("ensure/manager-woken-after-registering-workers-so-that-it-watches-their-sentinels",
+          "implies(log_count('call:ProcessPoolExecutor._adjust_process_count') >= 1, "
+          "ordered('call:ProcessPoolExecutor._adjust_process_count', lambda *a: True, 'call:_ThreadWakeup.wakeup', lambda r, w: w is self._executor_manager_thread_wakeup) and "
+          "exists_event('call:_ThreadWakeup.wakeup', lambda r, w: w is self._executor_manager_thread_wakeup))", prop="C02")
+c.replay_for("manager-woken-after-registering-workers", "unwatched_new_worker")
+c.raises("ensure/failed-spawn-or-wakeup-releases-the-lock", "Exception",
          post="log_tags()[-1] == 'release' and len(self._processes) <= max(old(len(self._processes)), self._max_workers)", prop="C08")
-c.raises_only("ensure/only-spawn-errors")
+c.raises_only("ensure/only-spawn-or-pipe-errors")
 c.modifies("contents(self._processes)", "G.started", "G.pid_live", "G.proc_of_pid", "self._executor_manager_thread", f"glob:{PE}.process_pool_executor_at_exit")
 
 c = M.contract(f"{PPE}.submit", props=["C02", "C03", "C05", "C07", "C08"])
